@@ -605,3 +605,23 @@ pub fn unicode_soup(rng: &mut Rng) -> String {
     }
     t
 }
+
+/// one class with many (25..80) method lines over a handful of obfuscated names in shuffled order,
+/// every line with its own range: file order inside a name group is observable
+pub fn mapping_big_class(rng: &mut Rng) -> Vec<u8> {
+    let n = rng.range(25, 80);
+    let names = ["a", "b", "c", "zz", "a$1"];
+    let mut out = String::from("com.example.Big -> o.a:\n");
+    for k in 0..n {
+        let obf = rng.pick(&names);
+        let start = 10 * k + 1;
+        if rng.chance(1, 4) {
+            // no range: applies to every line, so its position among the entries of `obf` is observable
+            out.push_str(&format!("    void n{}({}) -> {}\n", k, rng.pick(&["", "int"]), obf));
+        } else {
+            out.push_str(&format!("    {}:{}:void m{}({}):{}:{} -> {}\n", start, start + rng.below(9), k % 7, rng.pick(&["", "int", "long"]), 1000 + k, 1000 + k + rng.below(3), obf));
+        }
+    }
+    out.push_str("com.example.Small -> o.b:\n    void x() -> a\n");
+    out.into_bytes()
+}
